@@ -96,6 +96,12 @@ pub struct SourceRange {
 // This function renders the relevant lines of a source file given the source file contents and a
 // range. The range is inclusive on the left and exclusive on the right.
 pub fn listing(source_contents: &str, source_range: SourceRange) -> String {
+    #[cfg(feature = "verif-hooks")]
+    verif_hooks::LISTING_RANGES.with(|v| {
+        v.borrow_mut()
+            .push((source_range.start, source_range.end));
+    });
+
     // Remember the relevant lines and the position of the start of the next line.
     let mut lines = vec![];
     let mut pos = 0_usize;
@@ -197,6 +203,17 @@ pub fn listing(source_contents: &str, source_range: SourceRange) -> String {
         })
         .collect::<Vec<_>>()
         .join("\n")
+}
+
+// Event log for the external verification harness (feature `verif-hooks`, off by default).
+#[cfg(feature = "verif-hooks")]
+pub mod verif_hooks {
+    use std::cell::RefCell;
+
+    thread_local! {
+        // The source ranges passed to `listing`, in call order.
+        pub static LISTING_RANGES: RefCell<Vec<(usize, usize)>> = const { RefCell::new(Vec::new()) };
+    }
 }
 
 #[cfg(test)]
